@@ -247,6 +247,9 @@ func main() {
 				return int(binary.LittleEndian.Uint64(d[:8])%uint64(wn)) == wi
 			}, "")
 		}
+		for k, v := range lifeStats {
+			res.Counts[k] += v
+		}
 		b, _ := json.Marshal(res)
 		par.Emit(b)
 		os.RemoveAll(scratch)
